@@ -43,7 +43,12 @@ func MakeBidToBuy1SatOrdinal(ctx context.Context, mba *MakeBidArgs) (*bt.Tx, err
 	for i, u := range mba.BidderUTXOs {
 		if u.Satoshis > mba.BidAmount {
 			// Move the UTXO at index i to the beginning
-			mba.BidderUTXOs = append([]*bt.UTXO{u}, append(mba.BidderUTXOs[:i], mba.BidderUTXOs[i+1:]...)...)
+			// (into a new slice: the caller's slice must keep its elements)
+			reordered := make([]*bt.UTXO, 0, len(mba.BidderUTXOs))
+			reordered = append(reordered, u)
+			reordered = append(reordered, mba.BidderUTXOs[:i]...)
+			reordered = append(reordered, mba.BidderUTXOs[i+1:]...)
+			mba.BidderUTXOs = reordered
 			validUTXOFound = true
 			break
 		}
